@@ -23,6 +23,8 @@ func init() {
 	register(&PropertySpec{
 		ID: "C03",
 		Rules: []RuleSpec{
+			{"historic-root", "the historic VM's trie store is rooted at GetStateRoot(b.Index-1) of the block it executes in, over a private cache layer, and refuses garbage-collected heights", ruleHistoricRoot},
+			{"mpt-reader", "Trie methods read node records only through the mode-aware getFromStore (a retained root keeps every key contract storage holds, in every trie mode)", ruleMPTReader},
 			{"mpt-batch-source", "the MPT batch of a block is GetStorageChanges() of the very layer every execution of the block wrote to, taken after the last execution, and that layer is what is published", ruleMPTBatchSource},
 		},
 		NotCovered: "trie correctness itself (C10), Find/Seek ordering, proofs per key, equality of historic and live results",
@@ -114,6 +116,7 @@ func init() {
 	register(&PropertySpec{
 		ID: "C10",
 		Rules: []RuleSpec{
+			{"node-switch", "type switches dispatching over trie node kinds cover all five kinds or fail in their default arm", ruleNodeSwitch},
 			{"append-alias", "no append(node.field, ...) in package mpt whose result leaves the field (it would write into the spare capacity a node key shares with the path/batch array it was sliced from)", ruleAppendAlias},
 			{"mpt-reader", "Trie methods read node records only through the mode-aware getFromStore (reads after reload agree with content in every trie mode)", ruleMPTReader},
 		},
@@ -157,6 +160,7 @@ func init() {
 	register(&PropertySpec{
 		ID: "C07",
 		Rules: []RuleSpec{
+			{"attr-exhaustive", "every attribute kind has an arm in the binary decoder, the encoder and verifyTxAttributes; decoder and encoder reject unknown kinds", ruleAttrExhaustive},
 			{"hash-canonical", "a cached identity (hash/size) is computed from the node's own encoding, or from received bytes only if the length decoder rejects non-minimal encodings (the same content must be the same transaction in every accepted encoding)", ruleHashCanonical},
 			{"admit-dominators", "every admission check of verifyAndPoolTx (script, expiry, VUB window, policy, size, network fee, on-chain/conflict record, witnesses with the remaining fee, attributes) gates pool.Add on every CFG path", ruleAdmitDominators},
 		},
